@@ -404,6 +404,20 @@ Proof.
   - intros [-> |(sc & -> & H)]; unfold alias_chain; [reflexivity|now rewrite H].
 Qed.
 
+(* ------------------------------------------------------------------ shared operand slices *)
+(* formatting is a function of (context, operands) only and hands the operands back unchanged: for
+   every history of calls spreading the same operand list, call k's line is call_line of call k's
+   level/function/context and THE operands -- whatever was logged before -- and the list is the
+   same afterwards *)
+Theorem format_pure ts pid args cs :
+  log_history ts pid args cs =
+  (map (fun c => let '(lvl, fn, cx) := c in
+                 call_line ts pid {| l_lvl := lvl; l_fn := fn; l_ctx := cx; l_args := args |}) cs, args).
+Proof.
+  induction cs as [|[[lvl fn] cx] r IH]; [reflexivity|]. cbn [log_history format_step map].
+  now rewrite IH.
+Qed.
+
 (* ------------------------------------------------------------------ Switch / Close *)
 Lemma wm_state_snoc ts pid st ops op :
   wm_state ts pid st (ops ++ [op]) = fst (fst (wm_step ts pid (wm_state ts pid st ops) op)).
